@@ -39,6 +39,13 @@ class Hang(BaseException):
 
 class Dev:
     """Script, virtual clock, call log and ground truth shared by the stand-ins."""
+    fail_open = None                 # exception the next link establishment (connect / bind / serial.Serial) raises
+
+    def take_open_fault(self):
+        e, self.fail_open = self.fail_open, None
+        if e is not None:
+            self.log.append(("open-failed",))
+            raise e
 
     def __init__(self, events, stream_mode, t0=T0):
         self.ev = [tuple(e) for e in events]
@@ -142,10 +149,12 @@ class FakeSocket:
         pass
 
     def connect(self, addr):
+        self.dev.take_open_fault()
         self.up = True
         self.dev.log.append(("open",))
 
     def bind(self, addr):
+        self.dev.take_open_fault()
         self.up = True
         self.dev.log.append(("open",))
 
@@ -221,6 +230,7 @@ class FakeSocket:
 class FakeSerial:
     def __init__(self, dev, *a, **kw):
         self.dev = dev
+        dev.take_open_fault()
         tmo = kw.get("timeout")
         if tmo is None or tmo <= 0:
             raise AssertionError("harness: serial.Serial opened without a positive read timeout (%r)" % (tmo,))
@@ -315,6 +325,15 @@ class _Patched:
         self.tr.socket, self.tr.serial, self.tr.time = self.saved
 
 
+OPEN_FAULTS = {
+    "refused": lambda: ConnectionRefusedError(111, "Connection refused"),
+    "unreachable": lambda: OSError(113, "No route to host"),
+    "timeout": lambda: real_socket.timeout("timed out"),
+    "inuse": lambda: OSError(98, "Address already in use"),
+    "ioerror": lambda: OSError(5, "Input/output error"),
+    "value": lambda: ValueError("bad port parameter"),
+}
+
 EXC = {"QMI_InvalidOperationException": "invalid", "QMI_TimeoutException": "timeout",
        "QMI_EndOfInputException": "eof", "QMI_RuntimeException": "runtime", "ValueError": "value",
        "Hang": "hang"}
@@ -359,6 +378,12 @@ def impl_run(kind, events, ops, t0=T0, dev=None):
             try:
                 if o[0] == "open":
                     r = t.open()
+                elif o[0] == "open_fail":
+                    dev.fail_open = OPEN_FAULTS[o[1]]()
+                    try:
+                        r = t.open()
+                    finally:
+                        dev.fail_open = None
                 elif o[0] == "close":
                     r = t.close()
                 elif o[0] == "read":
@@ -383,7 +408,10 @@ def impl_run(kind, events, ops, t0=T0, dev=None):
                 res = ("hang",)
             except Exception as e:  # noqa
                 n = type(e).__name__
-                res = (EXC[n],) if n in EXC else ("other", n)
+                if o[0] == "open_fail" and ("open-failed",) in dev.log:
+                    res = ("openfail", n)       # the class with which a failed link establishment is reported is open
+                else:
+                    res = (EXC[n],) if n in EXC else ("other", n)
             log = list(dev.log)
             if o[0] == "write":
                 # how the socket is put into blocking mode and whether the data goes out in one or several
@@ -434,6 +462,16 @@ def oracle(kind, events, ops, obs, handed):
             flag("an operation other than write sent data to the device", repr(sends))
         avail = bytes(handed[acct:nh])          # what the transport holds if nothing was lost
         before = bytes(handed[acct:obs[i - 1][3]]) if i > 0 else b""
+        if o[0] == "open_fail":
+            # an attempt to open while the link cannot be established (refused, unreachable, port in use, ...)
+            if is_open:
+                if res != ("invalid",) or calls:
+                    flag("open of an open transport not refused", repr((res, calls)))
+            elif res[0] != "openfail":
+                flag("open reported %r although the link could not be established" % (res,), repr(calls))
+            elif not bufafter:
+                acct = nh   # an attempt to open may already have emptied the buffer (as a successful open does)
+            continue        # the transport stays as it was: closed after a failed open
         if not is_open:
             if calls and o[0] != "open":
                 flag("closed transport touched the device", repr(calls))
@@ -548,6 +586,19 @@ def c_call(c):
 
 
 def coq_case(kcode, events, ops, obs, t0=T0):
+    ops2, obs2 = [], []
+    for i, o in enumerate(ops):
+        if o[0] == "open_fail":
+            if i < len(obs) and obs[i][0] == ("invalid",):
+                ops2.append(("open",))
+                obs2.append(obs[i])
+            elif i >= len(obs):
+                ops2.append(("open",))
+            continue
+        ops2.append(o)
+        if i < len(obs):
+            obs2.append(obs[i])
+    ops, obs = ops2, obs2
     return "(%s, %s, %s, %s, %s)" % (
         kcode, cZ(t0), clist([c_ev(e) for e in events]), clist([c_op(o) for o in ops]),
         clist(["(%s, %s)" % (c_res(x[0]), clist([c_call(c) for c in x[1]])) for x in obs]))
@@ -689,6 +740,15 @@ def gen_cases(ck):
                 with open(os.path.join(cdir, fn)) as f:
                     c = json.load(f)["case"]
                 cases.append((c["kind"], [tuple(e) for e in c["events"]], [tuple(o) for o in c["ops"]], "corpus"))
+    # link establishment fails (any class of error), then the same object is used again: it must still read closed
+    for kind, faults in (("tcp", ("refused", "unreachable", "timeout", "value")), ("udp", ("inuse", "ioerror")),
+                         ("serial", ("ioerror", "value"))):
+        for fl in faults:
+            after = [("read", 1, 0), ("read_until", [10], 0), ("rut", 2, 0), ("discard",), ("write", [65]), ("close",)]
+            cases.append((kind, [("C", [65, 66, 10, 67], 0)], [("open_fail", fl)] + after, "failed-open"))
+            cases.append((kind, [("C", [65, 66, 10, 67], 0)],
+                          [("open_fail", fl), ("open",), ("read", 2, 5), ("close",), ("open_fail", fl), ("read", 1, 0), ("open",),
+                           ("open_fail", fl), ("read_until", [10], 5)], "failed-open"))
     # the witness of the known UDP defect, and fixed boundary cases
     cases.append(("udp", [("C", list(range(65, 75)), 1)], [("open",), ("rut", 4, 0)], "fixed"))
     cases.append(("tcp", [("C", list(range(65, 75)), 0)], [("open",), ("rut", 4, 0), ("read", 6, 0)], "fixed"))
